@@ -70,6 +70,15 @@ pub open spec fn e_parameter(p: PoolWrite, e: MethodParameter) -> (Seq<u8>, Pool
     let a = pw_opt_pname(p, e.name);
     (be16(a.0) + be16(parameter_flag_bits(e.flags)), a.1)
 }
+// JVMS 4.7.12 line_number_table entry: u2 start_pc, u2 line_number
+pub uninterp spec fn lab_pc(t: Labels, l: Label) -> u16;
+impl Labels { #[verifier::external_body] pub fn try_get(&self, target: &Label) -> (res: Result<u16, VErr>) ensures res matches Ok(v) ==> v == lab_pc(*self, *target) { unimplemented!() } }
+pub open spec fn e_line(labels: Labels, p: PoolWrite, e: (Label, u16)) -> (Seq<u8>, PoolWrite) { (be16(lab_pc(labels, e.0)) + be16(e.1), p) }
+// JVMS 4.7.3 exception_table entry: u2 start_pc, u2 end_pc, u2 handler_pc, u2 catch_type (0: any)
+pub open spec fn e_exception(labels: Labels, p: PoolWrite, e: Exception) -> (Seq<u8>, PoolWrite) {
+    let a = pw_opt_class(p, e.catch);
+    (be16(lab_pc(labels, e.start)) + be16(lab_pc(labels, e.end)) + be16(lab_pc(labels, e.handler)) + be16(a.0), a.1)
+}
 // the first k entries of a list, each through the pool the previous one left
 pub open spec fn w_fold<X>(p: PoolWrite, s: Seq<X>, k: int, f: spec_fn(PoolWrite, X) -> (Seq<u8>, PoolWrite)) -> (Seq<u8>, PoolWrite) decreases k {
     if 0 < k <= s.len() { let r = w_fold(p, s, k - 1, f); let e = f(r.1, s[k - 1]); (r.0 + e.0, e.1) } else { (Seq::<u8>::empty(), p) }
@@ -93,7 +102,12 @@ ARMS = {
     ('write', 'MODULE_PACKAGES'): ('module_packages', '&Vec<PackageName>', 'e_package', 2, '0xffff', 'slice'),
     ('write_method', 'EXCEPTIONS'): ('exceptions', '&Vec<ClassName>', 'e_class', 2, '0xffff', 'slice'),
     ('write_method', 'METHOD_PARAMETERS'): ('method_parameters', '&Vec<MethodParameter>', 'e_parameter', 1, '0xff', 'slice'),
+    # inside Code: entries name bytecode offsets through the label table (opaque function lab_pc of (table, label))
+    ('write_code', 'LINE_NUMBER_TABLE'): ('line_number_table', '&Vec<(Label, u16)>', 'e_line', 2, '0xffff', 'slice'),
+    # JVMS 4.7.3 exception_table: not an attribute of its own but a list in the body of Code (`writer.write_slice(&code.exception_table, ..)`, lifted as a region)
+    ('write_code', 'exception_table'): ('exception_table', '&Vec<Exception>', 'e_exception', 2, '0xffff', 'region'),
 }
+WITH_LABELS = {'LINE_NUMBER_TABLE', 'exception_table'}
 
 
 def closure_of(u, fname, attr):
@@ -101,12 +115,39 @@ def closure_of(u, fname, attr):
     s = u.src(W)
     f = s.cut_fn(fname)
     body, mask = f['body'], code_mask(f['body'])
-    m = re.search(r'write_attribute\(&mut buffer, pool, attribute::' + attr + r', \|w, pool\| \{', mask)
+    m = re.search(r'write_attribute\(&mut buffer, pool, attribute::' + attr + r', \|w, (?:pool|_)\| \{', mask)
     if not m:
         raise CutError(f'{W}: fn {fname}: no `write_attribute(&mut buffer, pool, attribute::{attr}, |w, pool| {{` any more')
     ob = m.end() - 1
     cb = match_close(mask, ob)
     return body[ob + 1:cb], s.line_of(f['open'] + ob)
+
+
+def region_of(u, fname, lst):
+    """the statement `writer.write_slice(&code.<lst>, ..)?;` of fn fname as a closure-body-like text `w.write_slice(<lst>, ..)` (receiver renamed to w, the list to its
+    field name), line of its first line"""
+    s = u.src(W)
+    f = s.cut_fn(fname)
+    body, mask = f['body'], code_mask(f['body'])
+    m = re.search(r'writer\.write_slice\(&code\.' + lst + r'\s*,', mask)
+    if not m:
+        raise CutError(f'{W}: fn {fname}: no `writer.write_slice(&code.{lst}, ..)` any more')
+    op = mask.index('(', m.start())
+    cl = match_close(mask, op)
+    text = 'w.write_slice(' + lst + body[m.end() - 1:cl + 1]
+    u.drop(f'fn {fname}: statement `writer.write_slice(&code.{lst}, ..)?;` lifted to a function (receiver `writer` named `w`, `&code.{lst}` passed as `{lst}`)')
+    return text, s.line_of(f['open'] + m.start())
+
+
+def bind(pat):
+    """`let <closure parameter pattern> = value;` without reference patterns (Verus has none): `&(ref a, b)` -> `let a = &value.0; let b = value.1;`"""
+    pat = pat.strip()
+    m = re.fullmatch(r'&\(ref (\w+), (\w+)\)', pat)
+    if m:
+        return f'let {m.group(1)} = &value.0; let {m.group(2)} = value.1;'
+    if re.fullmatch(r'\w+', pat):
+        return f'let {pat} = value;'
+    raise CutError(f'closure parameter pattern `{pat}` not handled')
 
 
 def beta_write_slice(u, body):
@@ -118,7 +159,7 @@ def beta_write_slice(u, body):
     code = re.sub(r'//[^\n]*', '', body) if '"' not in body else None
     if code is None:
         raise CutError('write_slice closure holds a string literal: not handled')
-    m = re.search(r'w\.write_slice\(\s*(\w+)\s*,\s*\|w, (\w+)\|\s*(.*?),\s*\|w, (\w+)\|\s*(.*)\)\s*$', code.strip(), re.S)
+    m = re.search(r'w\.write_slice\(\s*(\w+)\s*,\s*\|w, (\w+)\|\s*(.*?),\s*\|w, ([^|]+)\|\s*(.*)\)\s*$', code.strip(), re.S)
     if not m:
         raise CutError('closure is no longer of the shape w.write_slice(LIST, |w, n| SIZE, |w, x| ELEM)')
     lst, n, size_e, x, elem_e = m.groups()
@@ -127,7 +168,7 @@ def beta_write_slice(u, body):
     if 'put_size(self, slice.len())' not in ws or 'put_element(self, value)' not in ws:
         raise CutError('ClassWrite::write_slice no longer has the shape put_size(self, slice.len()) / put_element(self, value)')
     ws = ws.replace('put_size(self, slice.len())', '{ let ' + n + ' = slice.len(); ' + size_e.strip() + ' }')
-    ws = ws.replace('put_element(self, value)', '{ let ' + x + ' = value; ' + elem_e + ' }')
+    ws = ws.replace('put_element(self, value)', '{ ' + bind(x) + ' ' + elem_e + ' }')
     ws = re.sub(r'for value in slice', 'for value in iter: slice', ws)
     ws = ' '.join(ws.split())
     u.drop('w.write_slice(LIST, |w, n| SIZE, |w, x| ELEM) beta-reduced: the body of ClassWrite::write_slice (duke/src/lib.rs) with put_size(self, slice.len()) / put_element(self, value) '
@@ -140,14 +181,15 @@ def build(u):
     u.preamble('common.rs')
     u.preamble('bytes.rs')
     add_classwrite(u, [])
-    opaque(u, ['ClassName', 'PackageName', 'JavaString', 'ParameterName', 'InnerClassFlags', 'ParameterFlags', 'PoolWrite'])
+    opaque(u, ['ClassName', 'PackageName', 'JavaString', 'ParameterName', 'InnerClassFlags', 'ParameterFlags', 'PoolWrite', 'Labels', 'Label'])
+    u.item(T + 'method/code.rs', 'struct', 'Exception', derives=[])
     u.item(T + 'class.rs', 'struct', 'InnerClass', derives=[])
     u.item(T + 'method.rs', 'struct', 'MethodParameter', derives=[])
     u.raw(STUBS)
     first = True
     for (fname, attr), (lst, ty, enc, cw, mx, shape) in ARMS.items():
-        body, line = closure_of(u, fname, attr)
-        if shape == 'slice':
+        body, line = region_of(u, fname, lst) if shape == 'region' else closure_of(u, fname, attr)
+        if shape in ('slice', 'region'):
             body, got = beta_write_slice(u, body)
             if got != lst:
                 raise CutError(f'{attr}: the list written is `{got}`, the contract knows `{lst}`')
@@ -157,12 +199,13 @@ def build(u):
         n = f'{lst}@.len()'
         cnt = f'be16({n} as u16)' if cw == 2 else f'seq![{n} as u8]'
         W0, P0 = 'old(w).bytes()', '*old(pool)'
-        f = f'|q: PoolWrite, x| {enc}(q, x)'
-        lv = 'klass' if fname == 'write' else 'method'
+        lab = attr in WITH_LABELS
+        f = f'|q: PoolWrite, x| {enc}(*labels, q, x)' if lab else f'|q: PoolWrite, x| {enc}(q, x)'
+        lv = dict(write='klass', write_method='method', write_code='code')[fname]
         inv = (f'{n} <= {mx} && {L} == {lst}@ && w.bytes() == {W0} + {cnt} + w_fold({P0}, {lst}@, iter.index@ as int, {f}).0 '
                f'&& *pool == w_fold({P0}, {lst}@, iter.index@ as int, {f}).1 && w.infallible() == old(w).infallible()')
         u.fn(W, f'{fname}::warm_{lv}_{attr}', ret='res', canary=first,
-             synth=dict(sig=f'pub fn warm_{lv}_{attr}<Wr: ClassWrite>(w: &mut Wr, pool: &mut PoolWrite, {lst}: {ty}) -> Result<()>', body='{' + body + '}', line=line),
+             synth=dict(sig=f'pub fn warm_{lv}_{attr}<Wr: ClassWrite>(w: &mut Wr, pool: &mut PoolWrite, {lst}: {ty}' + (', labels: &Labels' if lab else '') + ') -> Result<()>', body='{' + body + '}', line=line),
              opt_rewrites=[(r'\.context\("[^"]*"\)', ''),
                            (r'pool\.put_optional\(([\w.]+)\.as_deref\(\), PoolWrite::put_class\)', r'pool.put_optional_class(&\1)'),
                            (r'pool\.put_optional\(([\w.]+)\.as_deref\(\), PoolWrite::put_utf8\)', r'pool.put_optional_utf8(&\1)'),
